@@ -1020,7 +1020,10 @@ return 1;""",
             # Explicit code exists to create object.
             # For example, NumPy intent(OUT) arguments as part of pre-call.
             # If post_call is None, the Object has already been created
-            build_format = "O"
+            # The wrapper owns a reference to the object; "N" passes
+            # it on to the tuple ("O" would add one which is never
+            # released).
+            build_format = "N"
             vargs = fmt.py_var
             blk0 = None
         else:
